@@ -130,3 +130,53 @@ def install():
 def seed_random(seed):
     from mapproxy.util import lock
     lock.random = _random.Random(seed)
+
+
+class CoopLock(object):
+    """threading.Lock replacement that is a scheduling point for controlled threads (a real lock held across a
+    scheduling point would block the scheduler); plain lock for everybody else"""
+
+    def __init__(self):
+        import threading
+        self._real = threading.Lock()
+        self._held = False
+
+    def acquire(self, blocking=True, timeout=-1):
+        s = sched.CUR
+        if s is not None and s.me() is not None:
+            sched.point('tlock', enabled=lambda: not self._held)
+            self._held = True
+            return True
+        r = self._real.acquire(blocking, timeout)
+        if r:
+            self._held = True
+        return r
+
+    def release(self):
+        self._held = False
+        if self._real.locked():
+            self._real.release()
+
+    def __enter__(self):
+        self.acquire()
+        return self
+
+    def __exit__(self, *a):
+        self.release()
+
+    def locked(self):
+        return self._held
+
+
+class ThreadingProxy(object):
+    Lock = CoopLock
+
+    def __getattr__(self, k):
+        import threading
+        return getattr(threading, k)
+
+
+def install_thread_locks():
+    from mapproxy.cache import mbtiles, geopackage
+    mbtiles.threading = ThreadingProxy()
+    geopackage.threading = ThreadingProxy()
